@@ -324,8 +324,8 @@ def midi_entries(col, facts):
         if ok:
             llo, lhi = o.ctx.rng(lst.len)
             g = M.bool_of(o.ctx, post.get('gate')) if hasattr(M, 'bool_of') else None
-            rg = M.bool_of(o.ctx, post.get('rising_gate')) if hasattr(M, 'bool_of') else None
-            fg = M.bool_of(o.ctx, post.get('falling_gate')) if hasattr(M, 'bool_of') else None
+            rg = rxf.latch(o.ctx, post, 'rising_gate')
+            fg = rxf.latch(o.ctx, post, 'falling_gate')
             out.append(((g is True and llo >= 1) or (g is False and lhi == 0), 'gate <=> held list non-empty: gate=%s len in [%s,%s]' % (g, llo, lhi)))
             out.append((rg is False or g is True, 'rising edge pending => gate high: rising=%s gate=%s' % (rg, g)))
             out.append((fg is False or g is False, 'falling edge pending => gate low: falling=%s gate=%s' % (fg, g)))
